@@ -23,7 +23,7 @@ def parseStageCfg (s : String) : Option StageCfg := do
   pure {
     mode := ← hb "mode", startRate := ← hb "srate", endRate := ← hb "erate", rate := ← hb "rate",
     distribution := ← hb "dist", weights := ← hb "weights", stages := ← hb "stages",
-    concurrency := ← it "conc", jitter := (getK m "jitter").map fun _ => (), volume := (getK m "volume").map fun _ => (),
+    concurrency := ← it "conc", jitter := ← it "jitter", volume := (getK m "volume").map fun _ => (),
     duration := ← it "dur", iterationFrequency := ← it "freq", repeat_ := ← it "repeat", peak := ← it "peak",
     stddev := ← it "stddev",
     parameters := ← (match getK m "params" with | none => some none | some v => (parseParams v).map some) }
@@ -36,6 +36,13 @@ def planTok (p : PlanOut) : String :=
   let st := if p.stages.isEmpty then "-" else
     ";".intercalate (p.stages.map fun r => s!"{r.duration}/{r.interval}/{r.users}/{paramsTok r.params}")
   s!"ok {strHex p.scenario} {p.total} {p.maxDuration} {p.concurrency} {p.maxIterations} {p.maxFailures} {p.maxFailuresRate} {boolTok p.ignoreDropped} {st}"
+
+/-- a constant-mode stage with distribution none and jitter 0 yields the same value on every tick -/
+def mustBeSame (r : RStage) : Bool := r.constant && r.distNone && r.jitter == 0
+
+def sameTok (p : PlanOut) : String :=
+  if p.stages.isEmpty then "-" else
+  ",".intercalate (p.stages.map fun r => if r.users ≠ 0 then "-" else if mustBeSame r then "1" else "*")
 
 /-- `plan <now> <top> <default> <stage>…` ; impl: `ok <scenario> <total> <maxdur> <conc> <maxit> <maxfail>
 <maxfailrate> <igndrop> <stages> probe=<ok|…>` | `err` -/
@@ -55,7 +62,12 @@ def plan (args impl : List String) : Option (String × String) := do
       stageStart := ← it "start",
       stages := ← stages.mapM parseStageCfg }
     let r := parsePlan cfg now
-    let model := match r with | .ok p => planTok p ++ " probe=ok" | .err => "err" | .crash => "crash"
+    let model := match r with | .ok p => planTok p ++ " probe=ok same=" ++ sameTok p | .err => "err" | .crash => "crash"
+    -- the harness's `same=` observations (one per kept stage), split off before the positional match
+    let sameObs : List String := match impl.find? (·.startsWith "same=") with
+      | some t => ((t.drop 5).toString.splitOn ",")
+      | none => []
+    let impl := impl.filter fun t => !t.startsWith "same="
     -- Spec (C14 + C15), evaluated on the implementation's output
     let spec := match impl with
       | ["err"] => "ok"
@@ -83,7 +95,12 @@ def plan (args impl : List String) : Option (String × String) := do
             match (x.splitOn "/").map String.toInt? with
             | [_, some iv, some u, _] => !((u = 0 ∧ iv > 0) ∨ (u ≥ 1 ∧ iv = 0))
             | _ => true) then "FAIL accepted-stage-is-not-runnable"
-        else "ok"
+        else match r with
+          | .ok p =>
+            if (p.stages.zip sameObs).any (fun (rs, o) => mustBeSame rs && o == "0") then
+              "FAIL stage-with-zero-jitter-does-not-yield-its-rate-unchanged"
+            else "ok"
+          | _ => "ok"
       | t :: _ => if t.startsWith "crash" then "FAIL config-crashes-the-parser" else "FAIL no-impl-output"
       | [] => "FAIL no-impl-output"
     pure (model, spec)
@@ -107,5 +124,30 @@ def calcOp (mode : String) (args impl : List String) : Option (String × String)
     | t :: _ => if t.startsWith "crash" then "FAIL input-crashes-instead-of-erroring" else "FAIL no-impl-output"
     | [] => "FAIL no-impl-output"
   pure (model, spec)
+
+/-- `gaussvol <peak-rate hex> <peakNs> <stddevNs>` — the `--peak-rate` path of the gaussian trigger. impl:
+`<volume> <volume of 1000000000/s>` | `err`. The volume is linear in the peak rate, so "N per unit" must satisfy
+`volume · unit(ns) ≈ N · reference` (both volumes are rounded to integers; binary64 relative error 1e-8 allowed). -/
+def gaussvol (args impl : List String) : Option (String × String) := do
+  match args with
+  | [r, _peak, sd] =>
+    let r ← hexBytes r
+    let sd ← sd.toInt?
+    let pr := parseRate r
+    let accept := match pr with | .ok _ => decide (0 < sd) | _ => false
+    let spec := match impl with
+      | ["err"] => if accept then "FAIL valid-peak-rate-refused" else "ok"
+      | [v, ref] =>
+        if !accept then "FAIL malformed-peak-rate-or-deviation-accepted"
+        else match pr, v.toInt?, ref.toInt? with
+          | .ok (cnt, unit), some V, some B =>
+            let d := V * unit - cnt * B
+            let tol := unit + cnt + (V.natAbs : Int) * unit / 100000000 + 1
+            if d.natAbs ≤ tol.natAbs then "ok" else s!"FAIL peak-rate-does-not-mean-N-per-unit-volume-{V}"
+          | _, _, _ => s!"FAIL volume-is-not-a-finite-number-{v}"
+      | t :: _ => if t.startsWith "crash" then "FAIL peak-rate-crashes" else "FAIL no-impl-output"
+      | [] => "FAIL no-impl-output"
+    pure ("-", spec)
+  | _ => none
 
 end F1.Drive
